@@ -572,6 +572,37 @@ def scan_recursion(run, crate, prefix="A2"):
                 ok, why = _descent_witness(crate, body, cs, callee, comp_set)
                 run.ob("%s.recursion" % prefix, "%s -> %s" % (name, callee), ok, why, site=cs,
                        key="%s.recursion|%s|%s|%s" % (prefix, name, callee, "ok" if ok else "no-witness"))
+    # fan-out: inside a loop over children, at most one recursive call per iteration path
+    for comp in sccs:
+        comp_set = set(comp)
+        for name in comp:
+            body = crate.bodies[name]
+            rec_blocks = {}
+            for cs in body.calls():
+                if cs.node["callee"].get("resolved") in comp_set or cs.node["callee"].get("path") in comp_set:
+                    rec_blocks[cs.bb] = cs
+            for header, blocks in sorted(body.loops().items()):
+                inside = [bb for bb in rec_blocks if bb in blocks]
+                if len(inside) < 2:
+                    continue
+                # two recursive call sites in one loop: can one iteration execute both?
+                worst = 0
+                seen = set()
+                stack = [(s, 0) for s in body.succs(header) if s in blocks]
+                while stack:
+                    bb, n = stack.pop()
+                    if (bb, n) in seen or n > 2:
+                        continue
+                    seen.add((bb, n))
+                    n2 = n + (1 if bb in rec_blocks else 0)
+                    worst = max(worst, n2)
+                    for s in body.succs(bb):
+                        if s in blocks and s != header:
+                            stack.append((s, n2))
+                run.ob("%s.recursion-fanout" % prefix, "%s loop@%s" % (name, _loop_line(body, header, blocks)), worst <= 1,
+                       "at most one recursive call per loop iteration" if worst <= 1 else
+                       "one loop iteration can make %d recursive calls on the same sub-structure: running time grows exponentially with nesting depth" % worst,
+                       site=rec_blocks[inside[0]], key="%s.fanout|%s" % (prefix, name))
     cg = crate.callgraph()
     for comp in sccs:
         cs_ = set(comp)
